@@ -40,6 +40,7 @@ class Check:
         self.explanation = ""
         self.exhaustive = False
         self.extra = {}
+        self.floor_failures = []
         self.known = [k for k in load_known().get("known", []) if k.get("property") == pid]
 
     # rule registry: name -> description; evidence reports the rule applied
@@ -56,10 +57,11 @@ class Check:
 
     def floor(self, rule, what, count, minimum):
         """instance floor: a rule that matches fewer sites than confirmed by hand is broken, not passed"""
-        if count < minimum:
-            raise AnalysisBroken("%s: rule %s matched %d %s, floor is %d (anchor vanished or extractor lost the shape)"
-                                 % (self.pid, rule, count, what, minimum))
         self.analysed["%s:%s" % (rule, what)] = count
+        if count < minimum:
+            # a violation found elsewhere takes precedence; otherwise the check is broken, not passed
+            self.floor_failures.append("%s: rule %s matched %d %s, floor is %d (anchor vanished or extractor lost the shape)"
+                                       % (self.pid, rule, count, what, minimum))
 
     def count(self, what, n):
         self.analysed[what] = n
@@ -128,6 +130,8 @@ class Check:
         )
         os.makedirs(EVIDENCE_DIR, exist_ok=True)
         json.dump(ev, open(os.path.join(EVIDENCE_DIR, "%s.json" % self.pid), "w"), indent=1)
+        if not real and self.floor_failures:
+            raise AnalysisBroken("; ".join(self.floor_failures))
         print("%s [%s]: %d obligations, %d discharged, %d violated (%d known), %d distinct non-trivial, %.1fs"
               % (self.pid, self.tier, len(self.obs), len(discharged), len(real), len(known_hits), len(nontriv),
                  time.time() - self.t0))
